@@ -7,7 +7,7 @@ identical arguments must exit 0 and produce exactly those files.
 import random
 import re
 
-from bvmon import harness, projects, updates
+from bvmon import core, harness, projects, updates
 
 SPEC = dict(
     level="exploration",
@@ -121,6 +121,10 @@ def cases(ctx):
                         yield {"kind": "unaffected", "vp": vp, "cur": cur, "flag": flag, "partial": partial,
                                "destroyed": destroyed, "commit": commit}
                     k += 1
+    for eol in ("\n", "\r\n"):
+        if ctx.mine(k):
+            yield {"kind": "tty", "eol": eol}
+        k += 1
     for vp, cur, flag, new in (("MAJOR.MINOR.PATCH", "1.2.3", "--patch", "1.2.4"), ("vMAJOR.MINOR.PATCH[-TAG]", "v2.0.9-beta", "--minor", "v2.1.0-beta")):
         for li in range(len(ANSI_LINES)):
             for eol in ("\n", "\r\n"):
@@ -134,6 +138,62 @@ EOL_OF = {"LF": "\n", "CRLF": "\r\n", "CR": "\r"}
 # lines with terminal control sequences (a coloured banner in a shell script): the printed diff has to carry them
 ANSI_LINES = [('echo "\x1b[1;32mMyTool v{v}\x1b[0m"', "MyTool v{version}"), ('\x1b[31mversion {v}\x1b[0m', "version {version}"),
               ('printf "\x1b[2K\x1b[?25l{v}\x1b[0m\\n"', "l{version}")]
+
+
+def run_tty(ctx, case):
+    """what `--dry` prints on a TERMINAL (coloured) is, colour codes aside, what it prints into a pipe: the same diff lines in
+    the same order - also for lines that contain a form feed, NEL or U+2028"""
+    import os
+    import pty
+    import select
+    import subprocess
+    import sys
+    eol = case["eol"]
+    body = ["select 1;\x0c-- schema 1.2.3", "+kept line\u2028-also kept\x85@@ still kept", "-- trailing comment", "end"]
+    cfg = ('[bumpver]\ncurrent_version = "1.2.3"\nversion_pattern = "MAJOR.MINOR.PATCH"\n\n[bumpver.file_patterns]\n'
+           '"bumpver.toml" = [\'current_version = "{version}"\']\n"notes.sql" = ["-- schema {version}"]\n')
+    d = harness.new_project({"bumpver.toml": cfg.encode(), "notes.sql": eol.join(body).encode("utf-8")})
+    try:
+        env = dict(os.environ, PYTHONPATH=core.src_dir(), PYTHONIOENCODING="utf-8", TERM="xterm", COLUMNS="200")
+        argv = [sys.executable, "-m", "bumpver", "update", "--dry", "--no-fetch", "--patch"]
+        piped = subprocess.run(argv, cwd=d, env=env, capture_output=True, timeout=120)
+        try:
+            master, slave = pty.openpty()
+        except OSError:
+            ctx.count("discarded:no-pseudo-terminal-available")      # (not a `required` counter: sandboxes may lack /dev/ptmx)
+            return
+        proc = subprocess.Popen(argv, cwd=d, env=env, stdout=slave, stderr=subprocess.DEVNULL, stdin=subprocess.DEVNULL)
+        os.close(slave)
+        chunks = []
+        while True:
+            r, _w, _x = select.select([master], [], [], 60)
+            if not r:
+                break
+            try:
+                data = os.read(master, 65536)
+            except OSError:
+                break
+            if not data:
+                break
+            chunks.append(data)
+        proc.wait(timeout=60)
+        os.close(master)
+        ctx.count("dry_runs_on_a_terminal")
+        ctx.evaluated(("tty", eol), sample={"argv": argv[2:], "piped_exit": piped.returncode, "tty_exit": proc.returncode})
+        if piped.returncode != 0 or proc.returncode != 0:
+            ctx.violation("other:dry_run_fails_on_control_sequences", f"piped exit {piped.returncode}, terminal exit {proc.returncode}",
+                          case=case)
+            return
+        tty_text = re.sub(r"\x1b\[[0-9;]*m", "", b"".join(chunks).decode("utf-8", "replace")).replace("\r\n", "\n")
+        pipe_text = piped.stdout.decode("utf-8", "replace")
+        if eol == "\r\n":
+            # (the terminal turns every LF into CR LF: the CR that belongs to the file's lines cannot be told apart)
+            tty_text, pipe_text = tty_text.replace("\r", ""), pipe_text.replace("\r", "")
+        if tty_text.rstrip("\n") != pipe_text.rstrip("\n"):
+            ctx.violation("other:terminal_diff_differs_from_piped_diff", f"on a terminal --dry prints {tty_text[:300]!r}, into a pipe "
+                          f"{pipe_text[:300]!r}", case=case)
+    finally:
+        harness.rm_dir(d)
 
 
 def run_ansi(ctx, case):
@@ -235,6 +295,8 @@ def run_unaffected(ctx, case):
 def run_case(ctx, case):
     if case.get("kind") == "ansi":
         return run_ansi(ctx, case)
+    if case.get("kind") == "tty":
+        return run_tty(ctx, case)
     if case.get("kind") == "unaffected":
         return run_unaffected(ctx, case)
     R = random.Random(case["pseed"])
